@@ -98,6 +98,25 @@ impl<K: Clone + Eq + Hash, V> LruTimeCache<K, V> {
     }
 }
 
+#[cfg(discv5_verif)]
+impl<K: Clone + Eq + Hash, V> LruTimeCache<K, V> {
+    /// Verification hook: makes every stored entry `d` older (virtual passage of time).
+    pub fn verif_age(&mut self, d: Duration) {
+        for (_key, (_value, time)) in self.map.iter_mut() {
+            *time = time.checked_sub(d).expect("instant underflow");
+        }
+    }
+
+    /// Verification hook: the stored keys from least to most recently used, with their age.
+    pub fn verif_entries(&self) -> Vec<(K, Duration)> {
+        let now = Instant::now();
+        self.map
+            .iter()
+            .map(|(k, (_v, t))| (k.clone(), now.saturating_duration_since(*t)))
+            .collect()
+    }
+}
+
 #[cfg(test)]
 mod tests {
     use crate::lru_time_cache::LruTimeCache;
